@@ -80,6 +80,32 @@ def outside_pair(rng, r):
     return a, b
 
 
+def padded_pair(rng, r):
+    """Two rules that differ only in the zero padding of a number inside one string field (tty1 / tty01)."""
+    import copy
+    import re as _re
+    keys = [k for k, v in r.items() if isinstance(v, str) and v and not v.startswith('"') and k in ("Path", "Target", "Peer", "PeerLabel", "Name", "MountPoint", "Source")]
+    if not keys:
+        return None
+    k = rng.choice(keys)
+    a, b = copy.deepcopy(r), copy.deepcopy(r)
+    a["Comment"] = b["Comment"] = ""
+    v = r[k]
+    m = None
+    for m_ in _re.finditer(r"(?<![0-9@{])[0-9]+(?![0-9}*\]])", v):
+        if not in_variable(v, m_.start()) and "[" not in v[:m_.start()].rsplit("/", 1)[-1]:
+            m = m_
+            break
+    if m:
+        b[k] = v[:m.start()] + rng.choice(["0", "00"]) + v[m.start():]
+    else:
+        base = v.rstrip("/")
+        tail = "/" if v.endswith("/") else ""
+        n = str(rng.randint(1, 9))
+        a[k], b[k] = base + n + tail, base + "0" + n + tail
+    return a, b
+
+
 def in_variable(s, i):
     a = s.rfind("@{", 0, i + 1)
     return a >= 0 and s.find("}", a) >= i
@@ -128,6 +154,11 @@ def run(ctx):
             twins.append((r, n))
         if rng.random() < 0.3:
             ab = outside_pair(rng, r)
+            if ab:
+                extra += list(ab)
+                twins.append(ab)
+        if rng.random() < 0.2:
+            ab = padded_pair(rng, r)
             if ab:
                 extra += list(ab)
                 twins.append(ab)
